@@ -63,6 +63,8 @@ typedef struct cfg_s {
 	int	used_zero;	/* 1: buf->used starts at 0 although the window starts at off > 0 */
 	int	pol;
 	int	pre;		/* number of history steps applied before the task is started */
+	int	refuse;		/* 1: the task sits on a descriptor epoll refuses (/dev/null: EPERM), the scheduled start must fail;
+				 * 2: then stopped and tp_task_enable(1) tried, which must fail as well */
 	int	nh;
 	hstep_t	h[MAXH];
 } cfg_t;
@@ -86,6 +88,7 @@ static int ncb, n_eof_cb, n_timeout_cb, fires_armed;
 static int task_dead;		/* stop/destroy returned (no further callback allowed) */
 static int peer_reset, reset_while_armed, n_reset_cb;
 static int task_destroyed;
+static int task_refused, refused_fd = -1;
 static int task_paused;		/* dispatch + non-continue return: silent until re-enabled */
 static int task_started;
 static int in_start, paused_unscheduled;
@@ -104,7 +107,7 @@ cfail(const char *clause, const char *fmt, ...) {
 static void
 case_desc(char *b, size_t n) {
 	int i; size_t o;
-	o = (size_t)snprintf(b, n, "%s evfl=%d every=%d sfio=%d tmo=%d win(size=%d,off=%d,ts=%d,used0=%d) pol=%s pre=%d hist:", C.send ? "send" : "recv",
+	o = (size_t)snprintf(b, n, "%s%s evfl=%d every=%d sfio=%d tmo=%d win(size=%d,off=%d,ts=%d,used0=%d) pol=%s pre=%d hist:", C.send ? "send" : "recv", (1 == C.refuse) ? " on a descriptor epoll refuses (/dev/null)" : (2 == C.refuse) ? " on a descriptor epoll refuses (/dev/null), then stop + tp_task_enable(1)" : "",
 	    C.evflags, C.every_read, C.sfio, C.timeout, C.size, C.off, C.ts, C.used_zero ? 0 : C.off, polname[C.pol], C.pre);
 	for (i = 0; i < C.nh && o + 12 < n; i ++) {
 		switch (C.h[i].op) {
@@ -158,6 +161,12 @@ static int
 task_cb(tp_task_p tptask, int error, io_buf_p b, uint32_t eof, size_t transfered_size, void *udata) {
 	(void)udata;
 	ncb ++;
+	if (task_refused) {
+		cfail("callback-after-refused-start", "callback (error %d) on a task whose tp_task_start_ex()%s returned an error", error, (2 == C.refuse) ? " and tp_task_enable()" : "");
+		if (ETIMEDOUT == error)
+			cfail("spurious-timeout", "ETIMEDOUT reported for a task that was never scheduled: its start was refused");
+		return (TP_TASK_CB_NONE);
+	}
 	if (task_dead) {
 		cfail("callback-after-stop", "callback after tp_task_%s() returned", task_destroyed ? "destroy" : "stop");
 		return (TP_TASK_CB_NONE);
@@ -227,6 +236,27 @@ task_cb(tp_task_p tptask, int error, io_buf_p b, uint32_t eof, size_t transfered
 static void
 start_task(void) {
 	int rc;
+	if (C.refuse) {
+		/* "timeouts are reported" for a task that waits; a start that returned an error must leave nothing behind that
+		 * could call back: no registration, no armed timer */
+		refused_fd = open("/dev/null", (C.send ? O_WRONLY : O_RDONLY) | O_NONBLOCK);
+		if (refused_fd < 0) { cfail("harness", "open /dev/null"); return; }
+		rc = tp_task_create(t0, (uintptr_t)refused_fd, C.every_read ? tp_task_sr_handler : tp_task_rw_handler, 0, NULL, &task);
+		if (0 != rc) { cfail("harness", "tp_task_create rc=%d", rc); return; }
+		task_started = 1;
+		rc = tp_task_start_ex(1, task, C.send ? TP_EV_WRITE : TP_EV_READ, C.evflags, C.timeout ? TIMEOUT_MS : 0, 0, &buf, task_cb);
+		if (0 == rc)
+			return; /* not refused on this kernel: an ordinary task, nothing to demand */
+		if (2 == C.refuse) {
+			tp_task_stop(task);
+			if (0 == tp_task_enable(task, 1))
+				return;
+		}
+		task_refused = 1; task_dead = 1;
+		if (rec_tfd_last >= 0 && (0 != rec_spec.it_value.tv_sec || 0 != rec_spec.it_value.tv_nsec))
+			cfail("timer-left-armed", "%s returned an error but the timeout timer it created is still armed (%ld s)", (2 == C.refuse) ? "tp_task_enable()" : "tp_task_start_ex()", (long)rec_spec.it_value.tv_sec);
+		return;
+	}
 	rc = tp_task_create(t0, (uintptr_t)sk[0], tp_task_sr_handler, C.every_read ? TP_TASK_F_CB_AFTER_EVERY_READ : 0, NULL, &task);
 	if (0 != rc) { cfail("harness", "tp_task_create rc=%d", rc); return; }
 	task_started = 1;
@@ -362,7 +392,7 @@ run_case(void) {
 	t0 = tp_thread_get(tp, 0);
 	if (0 != socketpair(AF_UNIX, SOCK_STREAM | SOCK_NONBLOCK, 0, sk)) { vh_fail("harness", "socketpair"); return; }
 	peer_open = 1; peer_reset = reset_while_armed = n_reset_cb = ncb_after_reset = 0; arrived = 0; reported = 0; run_base = C.off; ncb = n_eof_cb = n_timeout_cb = fires_armed = 0;
-	task_dead = task_destroyed = task_paused = task_started = 0; task = NULL; in_start = paused_unscheduled = 0;
+	task_dead = task_destroyed = task_paused = task_started = 0; task_refused = 0; refused_fd = -1; task = NULL; in_start = paused_unscheduled = 0;
 	cur_step = 0; settle_left = 0; shutdown_sent = 0; rec_tfd_last = -1;
 	memset(bufmem, CANARY, sizeof(bufmem));
 	memset(&buf, 0, sizeof(buf));
@@ -416,9 +446,10 @@ run_case(void) {
 	if (NULL != task && !task_destroyed)
 		tp_task_destroy(task);
 	tp_destroy(tp); tp = NULL;
+	if (refused_fd >= 0) close(refused_fd);
 	close(sk[0]);
 	if (sk[1] >= 0) close(sk[1]);
-	if (ncb > 0 && !case_failed)
+	if ((ncb > 0 || task_refused) && !case_failed)
 		vh_nontrivial();
 	vh_outcome(&ncb, sizeof(ncb));
 	vh_outcome(&reported, sizeof(reported));
@@ -429,7 +460,7 @@ static int payload_len = 6;
 
 static void
 emit_case(void) {
-	if (!vh_begin(C.send ? "send_task" : "recv_task"))
+	if (!vh_begin(C.refuse ? "refused_start" : C.send ? "send_task" : "recv_task"))
 		return;
 	vh_set_describer(case_desc);
 	run_case();
@@ -498,6 +529,20 @@ main(int argc, char **argv) {
 			payload_len = atoi(argv[i + 1]);
 	}
 	nwin = (int)(sizeof(wins) / sizeof(wins[0]));
+	/* starts that the event layer refuses (prediction 19 of DESIGN 11): with and without a timeout, then the timer expiry */
+	memset(&C, 0, sizeof(C));
+	for (C.refuse = 1; C.refuse <= 2; C.refuse ++)
+	for (C.send = 0; C.send < 2; C.send ++)
+	for (f = 0; f < 3; f ++)
+	for (C.every_read = 0; C.every_read < 2; C.every_read ++)
+	for (C.timeout = 0; C.timeout < 2; C.timeout ++)
+	for (i = 0; i < 2; i ++) {
+		C.evflags = evf[f]; C.sfio = 1; C.size = 8; C.off = 1; C.ts = 6; C.pol = POL_CONTINUE; C.pre = 0;
+		C.nh = 0;
+		if (i) { C.h[0].op = H_FIRE; C.h[0].k = 0; C.nh = 1; }
+		emit_case();
+	}
+	memset(&C, 0, sizeof(C));
 	for (C.send = 0; C.send < 2; C.send ++)
 	for (f = 0; f < 3; f ++)
 	for (C.every_read = 0; C.every_read < (C.send ? 1 : 2); C.every_read ++)
